@@ -392,7 +392,7 @@ fn create_ask(
     }
 
     let ask_price =
-        Decimal::from_str(&ask_order.price).map_err(|_| ContractError::InvalidFields {
+        Decimal::from_str_exact(&ask_order.price).map_err(|_| ContractError::InvalidFields {
             fields: vec![String::from("price")],
         })?;
 
@@ -475,7 +475,7 @@ fn create_bid(
     let contract_info = get_contract_info(deps.storage)?;
 
     let bid_price =
-        Decimal::from_str(&bid_order.price).map_err(|_| ContractError::InvalidFields {
+        Decimal::from_str_exact(&bid_order.price).map_err(|_| ContractError::InvalidFields {
             fields: vec![String::from("price")],
         })?;
 
@@ -1053,9 +1053,10 @@ fn execute_match(
             fields: vec![String::from("BidOrder.price")],
         })?;
 
-    let execute_price = Decimal::from_str(&price).map_err(|_| ContractError::InvalidFields {
-        fields: vec![String::from("ExecuteMsg.price")],
-    })?;
+    let execute_price =
+        Decimal::from_str_exact(&price).map_err(|_| ContractError::InvalidFields {
+            fields: vec![String::from("ExecuteMsg.price")],
+        })?;
 
     match ask_price.cmp(&bid_price) {
         // order prices overlap, use ask or bid price determined by execute msg provided price
